@@ -147,7 +147,14 @@ func genCase(r *hx.Rand, big bool) *Case {
 			dropIn[n] = (i + r.Intn(2)) % nfiles
 		}
 	}
+	bigWanted := r.Chance(1, 12)
 	nu := 1 + r.Intn(3)
+	if bigWanted {
+		nu = 3
+		if len(names) > 3 {
+			names = names[:3]
+		}
+	}
 	var units []string
 	for len(units) < nu {
 		u := hx.Pick(r, unitPool)
@@ -181,9 +188,15 @@ func genCase(r *hx.Rand, big bool) *Case {
 	fileNames := []string{"a.txt", "b.txt", "c.txt", "d.txt"}
 	// "counts" mode: every file was produced with its own -count (6..25), so the cells of one
 	// table have different sample sizes
-	countsMode := r.Chance(1, 4)
+	countsMode := bigWanted || r.Chance(1, 4)
+	// "bigcells": 17..64 values per cell and three units per line (sort beyond the insertion-sort
+	// regime, slices that grow by append many times)
+	bigCells := bigWanted
 	if countsMode {
 		c.tag("counts")
+	}
+	if bigCells {
+		c.tag("bigcells")
 	}
 	exactUnit := ""
 	exactFile, exactBlock := r.Intn(nfiles), 0
@@ -208,6 +221,9 @@ func genCase(r *hx.Rand, big bool) *Case {
 		}
 		cfg := map[string]string{}
 		fileCount := 6 + r.Intn(20)
+		if bigCells {
+			fileCount = 17 + r.Intn(48)
+		}
 		for bi := 0; bi < nblocks; bi++ {
 			// configuration lines of this block
 			if clearMode {
